@@ -296,6 +296,10 @@ func NewUpstream(addr string, opt Opt) (_ Upstream, err error) {
 		if err != nil {
 			return nil, fmt.Errorf("failed to create doh upstream, %w", err)
 		}
+		if t1, ok := t.(*http.Transport); ok {
+			// Don't leave keep-alive connections open after Close.
+			return &upstreamWithClosers{Upstream: u, cs: []io.Closer{closerFunc(t1.CloseIdleConnections)}}, nil
+		}
 		return u, nil
 	case "quic", "doq":
 		dialAddr := getDialAddr(urlAddrHost, opt.DialAddr, "853")
@@ -355,13 +359,36 @@ func NewUpstream(addr string, opt Opt) (_ Upstream, err error) {
 			}
 			return c, nil
 		}
-		return transport.NewQuicTransport(transport.QuicTransportOpts{
+		qt := transport.NewQuicTransport(transport.QuicTransportOpts{
 			DialContext: dialQuicConn,
 			Logger:      logger,
-		}), nil
+		})
+		// The quic transport and its socket must be closed with the upstream.
+		return &upstreamWithClosers{Upstream: qt, cs: []io.Closer{t, uc}}, nil
 	default:
 		return nil, fmt.Errorf("unsupported protocol [%s]", addrURL.Scheme)
 	}
+}
+
+// upstreamWithClosers closes cs after the Upstream was closed.
+type upstreamWithClosers struct {
+	Upstream
+	cs []io.Closer
+}
+
+func (u *upstreamWithClosers) Close() error {
+	err := u.Upstream.Close()
+	for _, c := range u.cs {
+		c.Close()
+	}
+	return err
+}
+
+type closerFunc func()
+
+func (f closerFunc) Close() error {
+	f()
+	return nil
 }
 
 type udpWithFallback struct {
